@@ -438,7 +438,7 @@ def run_check(pid, tier, seed, replay=None):
     dstates = dtrans = 0
     design_runs = []
     violations = []
-    for d in plan.get("designs", []):
+    for d in ([] if replay else plan.get("designs", [])):
         if tier == "quick" and d.get("thorough_only"):
             continue
         r = d["run"](d, tier)
@@ -525,8 +525,9 @@ def run_check(pid, tier, seed, replay=None):
     )
     for k, v in plan.get("extra_cov", {}).items():
         cov[k] = v
-    core.write_evidence(pid, tier, seed, cov, time.time() - t0, nviol, plan["assumptions"],
-                        outdir=os.path.join(core.ROOT, "growth") if plan.get("growth") else None)
+    if not replay:      # a replay re-executes a handful of calls; it does not describe the check's coverage
+        core.write_evidence(pid, tier, seed, cov, time.time() - t0, nviol, plan["assumptions"],
+                            outdir=os.path.join(core.ROOT, "growth") if plan.get("growth") else None)
     # clean bulky traces
     if not os.environ.get("VERIF_KEEP"):
         for p in paths:
